@@ -28,8 +28,7 @@ Section HASH.
              then mgf1_loop f hash seed maskLen (ctr + 1) (digest ++ hash (seed ++ be_bytes 4 ctr))
              else digest
     end.
-  (* every round adds at least ... bytes only if the hash is non-empty; fuel maskLen suffices for
-     the stdlib hashes (32 / 64 bytes per round) *)
+  (* fuel: every round appends a whole digest (32 / 64 bytes), so maskLen rounds always suffice *)
   Definition mgf1 (hash : bytes -> bytes) (seed : bytes) (maskLen : nat) : bytes :=
     firstn maskLen (mgf1_loop maskLen hash seed maskLen 0 []).
 
